@@ -29,6 +29,7 @@ ASSUMPTIONS = [
     "a bare top-level reference is not handed to PDFStreamParser except to exhibit known finding C01:streamparser-toplevel-ref",
 ]
 PROBES = [
+    "tens of thousands of distinct names",
     "read under settings.STRICT",
     "nesting deeper than 1000",
     "boundary inside string escape",
@@ -287,6 +288,40 @@ def deep_case(t, ctx):
     return Outcome(list(seen.values()), scen=repr((depth, "".join(levels), tail)), nontrivial=True, sample={"value": "%d nested containers followed by %r" % (depth, tail), "spelling": repr(spelled[:40]), "object_offset": 0, "features": ["deep nesting"]})
 
 
+def many_names_case(t, ctx):
+    """Tens of thousands of distinct names in one process: a name read before them and after them is the same
+    name (names compare by identity in the library), and each of the many reads back as itself, twice."""
+    from pdfminer.psparser import LIT, PSLiteral
+
+    n = t.pick([33000, 70000, 140000], "names.n")
+    base = t.draw(1000, "names.base")
+    ctx.probe("tens of thousands of distinct names")
+    data = b"[/First /Type " + b" ".join(b"/n%dx%d" % (base, i) for i in range(n)) + b" /First /Type]"
+    devs = []
+    before = LIT("First")
+    reads = []
+    for k in range(2):
+        res = read_stream_path(data, None)
+        if res[0] != "ok" or not isinstance(res[1], list) or len(res[1]) != n + 4:
+            devs.append(Dev("C01:streamparser:wrong-names", "array of %d names: %r" % (n + 4, res[:2] if res[0] != "ok" else len(res[1]))))
+            break
+        reads.append(res[1])
+    if len(reads) == 2:
+        a, b = reads
+        bad = next((i for i in range(n + 4) if not isinstance(a[i], PSLiteral) or a[i] is not b[i]), None)
+        if bad is not None:
+            devs.append(Dev("C01:streamparser:name-identity", "element %d of an array of %d distinct names: %r when read first, %r (another object) when read again in the same process" % (bad, n + 4, a[bad], b[bad])))
+        elif a[0] is not a[-2] or a[0] is not before or LIT("First") is not before or a[1] is not LIT("Type"):
+            devs.append(Dev("C01:streamparser:name-identity", "/First or /Type before and after %d other names are different objects" % n))
+        elif any(a[2 + i].name != "n%dx%d" % (base, i) for i in (0, 1, n // 2, n - 1)):
+            devs.append(Dev("C01:streamparser:wrong-names", "names read back changed"))
+    t.note((n, base))
+    seen = {}
+    for d in devs:
+        seen.setdefault(d.sig, d)
+    return Outcome(list(seen.values()), scen=repr(("names", n, base)), nontrivial=True, sample={"value": "array of %d distinct names" % n, "spelling": repr(data[:60]), "object_offset": 0, "features": ["many names"]})
+
+
 def literal_name_of(v):
     from pdfminer.psparser import PSLiteral
 
@@ -297,6 +332,8 @@ def run(tape, ctx, item=None):
     t = tape
     if t.coin(1, 120, "deep"):
         return deep_case(t, ctx)
+    if t.coin(1, 700, "manynames"):
+        return many_names_case(t, ctx)
     if t.coin(10, 100, "strict"):
         # conformant objects read back the same under the library's strict setting
         from pdfminer import settings as _settings
